@@ -42,7 +42,7 @@ impl<D: StorageData> StorageData for Rec<D> {
 #[derive(Clone)]
 pub struct Snap { pub data: Vec<u8>, pub wal: Vec<u8>, pub call: usize, pub torn: usize, pub ops_seen: usize, pub committed: Vec<u8> }
 
-pub struct HookState { pub path: String, pub wal_path: String, pub calls: Vec<String>, pub snaps: Vec<Snap>, pub committed: Vec<u8>, pub torn_seed: u64, pub sample_permille: u64 }
+pub struct HookState { pub path: String, pub wal_path: String, pub calls: Vec<String>, pub snaps: Vec<Snap>, pub committed: Vec<u8>, pub torn_seed: u64, pub sample_permille: u64, pub at_mark: Option<(Vec<u8>, Vec<u8>)> }
 
 pub fn wal_name(path: &str) -> String {
     match path.rfind('/') { Some(i) => format!("{}/.{}", &path[..i], &path[i + 1..]), None => format!(".{}", path) }
@@ -62,7 +62,7 @@ fn show_call(e: &FsEvent) -> Option<String> {
 
 pub fn install_hook(path: &str, torn_seed: u64, sample_permille: u64) -> Arc<Mutex<HookState>> {
     let wal_path = wal_name(path);
-    let hs = Arc::new(Mutex::new(HookState { path: path.to_string(), wal_path: wal_path.clone(), calls: vec![], snaps: vec![], committed: vec![], torn_seed, sample_permille }));
+    let hs = Arc::new(Mutex::new(HookState { path: path.to_string(), wal_path: wal_path.clone(), calls: vec![], snaps: vec![], committed: vec![], torn_seed, sample_permille, at_mark: None }));
     let h2 = hs.clone();
     set_fs_hook(Some(Box::new(move |e: &FsEvent| {
         let Some(call) = show_call(e) else { return; };
@@ -115,7 +115,47 @@ pub fn install_hook(path: &str, torn_seed: u64, sample_permille: u64) -> Arc<Mut
 
 pub struct Out {
     pub cases: Vec<String>, pub imp: Vec<String>, pub oracle: Vec<String>,
-    pub stats: BTreeMap<String, u64>, pub samples: Vec<String>, pub nontrivial: u64, pub programs: u64, pub snapshots: u64,
+    pub stats: BTreeMap<String, u64>, pub samples: Vec<String>, pub nontrivial: u64, pub programs: u64, pub snapshots: u64, pub damaged: u64, pub traced: u64, pub in_recovery: u64,
+}
+
+// FileStorage::new on copies of (data, log) with the calls it issues recorded: (recovered bytes | error | panic, calls of new())
+fn recover_traced(rp: &str, data: &[u8], wal: &[u8]) -> (String, Vec<String>) {
+    let rw = wal_name(rp);
+    std::fs::write(rp, data).unwrap();
+    std::fs::write(&rw, wal).unwrap();
+    let calls: Arc<Mutex<Vec<String>>> = Arc::new(Mutex::new(vec![]));
+    let c2 = calls.clone();
+    set_fs_hook(Some(Box::new(move |e: &FsEvent| { if let Some(c) = show_call(e) { c2.lock().unwrap().push(c); } })));
+    let c3 = calls.clone();
+    let r = std::panic::catch_unwind(std::panic::AssertUnwindSafe(move || {
+        let s = FileStorage::new(rp);
+        let n = c3.lock().unwrap().len();   // what follows is the Drop of the recovered storage
+        (s.map(|s| drop(s)), n)
+    }));
+    set_fs_hook(None);
+    let all = calls.lock().unwrap().clone();
+    let res = match r {
+        Ok((Ok(()), n)) => (hex(&read_file(rp)), all[..n.min(all.len())].to_vec()),
+        Ok((Err(_), n)) => ("error".to_string(), all[..n.min(all.len())].to_vec()),
+        Err(_) => ("panic".to_string(), all),
+    };
+    let _ = std::fs::remove_file(rp);
+    let _ = std::fs::remove_file(&rw);
+    res
+}
+
+// the complete records of a log: (offset, position, size)
+fn parse_log(w: &[u8]) -> Vec<(usize, u64, u64)> {
+    let mut v = vec![];
+    let mut o = 0usize;
+    while o + 16 <= w.len() {
+        let p = u64::from_le_bytes(w[o..o + 8].try_into().unwrap());
+        let z = u64::from_le_bytes(w[o + 8..o + 16].try_into().unwrap());
+        if z > (w.len() - o - 16) as u64 { break; }
+        v.push((o, p, z));
+        o += 16 + z as usize;
+    }
+    v
 }
 
 fn bump(o: &mut Out, k: &str) { *o.stats.entry(k.to_string()).or_insert(0) += 1; }
@@ -125,7 +165,7 @@ fn show_sdop(o: &SdOp) -> String {
 }
 
 // one storage-level program on a fresh file
-pub fn run_program(rng: &mut Rng, dir: &str, idx: usize, mapped: bool, max_ops: u64, out: &mut Out) {
+pub fn run_program(rng: &mut Rng, dir: &str, idx: usize, mapped: bool, max_ops: u64, guard: bool, out: &mut Out) {
     let path = format!("{}/w{}.agdb", dir, idx);
     let wal_path = wal_name(&path);
     let _ = std::fs::remove_file(&path);
@@ -167,7 +207,8 @@ pub fn run_program(rng: &mut Rng, dir: &str, idx: usize, mapped: bool, max_ops: 
                 if $rng.chance(1, 2) { while let Some(id) = depth.pop() { s.commit(id)?; } $program.push("commit-all".into()); }
                 else if depth.is_empty() && $rng.chance(1, 2) { let _ = s.transaction(); $program.push("begin (left open)".into());
                     let b: Vec<u8> = (0..20).map(|_| $rng.next() as u8).collect(); let _ = s.insert_bytes(&b)?; $program.push("insert 20".into()); }
-                hs.lock().unwrap().calls.push("|".into());   // end of the program; what follows is Drop
+                { let mut h = hs.lock().unwrap(); h.at_mark = Some((read_file(&h.path), read_file(&h.wal_path)));
+                  h.calls.push("|".into()); }   // end of the program; what follows is Drop
                 Ok(())
             }};
         }
@@ -236,8 +277,97 @@ pub fn run_program(rng: &mut Rng, dir: &str, idx: usize, mapped: bool, max_ops: 
     let inside: Vec<&Snap> = st.snaps.iter().filter(|sn| sn.call >= 1 && sn.call < mark).collect();
     for _ in 0..16.min(inside.len()) {
         let sn = inside[r2.below(inside.len() as u64) as usize];
-        out.cases.push(format!("wal recover x ({}) {:x} {:x}", opstr, sn.call - 1, sn.torn));
+        // on a tree with the position guard of apply_wal_record the model is the guarded recovery
+        out.cases.push(format!("wal {} x ({}) {:x} {:x}", if guard { "recoverg" } else { "recover" }, opstr, sn.call - 1, sn.torn));
         out.imp.push(hex(&sn.committed));
+    }
+    let g = if guard { 1 } else { 0 };
+    let tp = format!("{}/t{}.agdb", dir, idx);
+    // (3b) recovery as a sequence of calls (FileWal.recovery_calls): the calls the real FileStorage::new issues on sampled
+    //      snapshots (repair of a torn tail, the undo calls, on a guarded tree the removal of each undone record, clear)
+    let small: Vec<&Snap> = st.snaps.iter().filter(|sn| sn.data.len() <= 4000).collect();
+    for _ in 0..6.min(small.len()) {
+        let sn = small[r2.below(small.len() as u64) as usize];
+        let (res, calls) = recover_traced(&tp, &sn.data, &sn.wal);
+        out.cases.push(format!("wal rcalls {} 0 {} {}", g, hex(&sn.data), hex(&sn.wal)));
+        out.imp.push(format!("{}{}", calls.join(" "), if res == "error" { " error" } else { "" }));
+        out.traced += 1;
+    }
+    //      ... and the calls of Drop rolling back the open transaction (apply_wal, then flush), from the files at the end of the program
+    if let Some((d, w)) = &st.at_mark {
+        if d.len() <= 4000 && mark < st.calls.len() {
+            out.cases.push(format!("wal rcalls {} 1 {} {}", g, hex(d), hex(w)));
+            out.imp.push(st.calls[mark + 1..].join(" "));
+            out.traced += 1;
+        }
+    }
+    // (3c) cuts INSIDE the rollback of Drop (recovery itself interrupted): the model recovers these very files
+    let in_drop: Vec<&Snap> = st.snaps.iter().filter(|sn| sn.call > mark && sn.data.len() <= 4000).collect();
+    for _ in 0..6.min(in_drop.len()) {
+        let sn = in_drop[r2.below(in_drop.len() as u64) as usize];
+        out.cases.push(format!("wal open {} {} {}", g, hex(&sn.data), hex(&sn.wal)));
+        out.imp.push(hex(&sn.committed));
+        out.in_recovery += 1;
+    }
+    // (4) logs the storage did NOT write: snapshots whose log is damaged in the position fields (moved inside the
+    //     file, to its end, a little beyond it) or gets a garbage record appended / prepended; the outcome of the real
+    //     FileStorage::new (recovered bytes | error) is compared with the model's recovery of these very files
+    //     (`wal open`: recover_g on a guarded tree; on an unguarded tree the model answers `beyond` when a record
+    //     lies beyond the current end, where FileWal.v does not model the sparse extension — C07's OpenFile.v does)
+    let with_log: Vec<&Snap> = st.snaps.iter().filter(|sn| sn.wal.len() >= 16 && sn.data.len() <= 4000).collect();
+    let dp = format!("{}/g{}.agdb", dir, idx);
+    for _ in 0..6.min(with_log.len()) {
+        let sn = with_log[r2.below(with_log.len() as u64) as usize];
+        let recs = parse_log(&sn.wal);
+        let len = sn.data.len() as u64;
+        let mut wal = sn.wal.clone();
+        let kind = r2.below(6);
+        let near = |r: &mut Rng| match r.below(5) { 0 => len + 1, 1 => len + r.range(1, 16), 2 => len + r.range(1, 300), _ => r.below(len + 40) };
+        let what = match kind {
+            0 | 1 | 2 if !recs.is_empty() => {
+                // overwrite the position of one record
+                let (off, _, _) = recs[r2.below(recs.len() as u64) as usize];
+                let p = if kind == 2 { len } else { near(&mut r2) };
+                wal[off..off + 8].copy_from_slice(&p.to_le_bytes());
+                format!("position-of-record@{}:={}", off, p)
+            }
+            3 => {
+                // a garbage record appended (it is the newest: applied first)
+                let p = near(&mut r2);
+                let z = [0u64, 0, 1, 5][r2.below(4) as usize];
+                let cut = recs.last().map(|(o, _, z)| o + 16 + *z as usize).unwrap_or(0);
+                wal.truncate(cut);
+                wal.extend_from_slice(&p.to_le_bytes()); wal.extend_from_slice(&z.to_le_bytes());
+                for _ in 0..z { wal.push(r2.next() as u8); }
+                format!("appended-record pos={} size={}", p, z)
+            }
+            4 => {
+                // a garbage record in front (the oldest: applied last)
+                let p = near(&mut r2);
+                let z = [0u64, 2][r2.below(2) as usize];
+                let mut w2: Vec<u8> = vec![]; w2.extend_from_slice(&p.to_le_bytes()); w2.extend_from_slice(&z.to_le_bytes());
+                for _ in 0..z { w2.push(r2.next() as u8); }
+                w2.extend_from_slice(&wal); wal = w2;
+                format!("prepended-record pos={} size={}", p, z)
+            }
+            _ => {
+                // the whole log replaced by one 16-byte record
+                let p = near(&mut r2);
+                wal = vec![]; wal.extend_from_slice(&p.to_le_bytes()); wal.extend_from_slice(&0u64.to_le_bytes());
+                format!("single-record pos={}", p)
+            }
+        };
+        let (res, rcalls) = recover_traced(&dp, &sn.data, &wal);
+        if res == "panic" { out.oracle.push(format!("wal-damaged-log-panic {} data_len={} log={} {}", what, len, hex(&wal), desc)); }
+        bump(out, &format!("damaged-log:{}", what.split(|c| c == ' ' || c == '@').next().unwrap()));
+        bump(out, if res == "error" { "damaged-log-outcome:error" } else { "damaged-log-outcome:recovered" });
+        out.damaged += 1;
+        out.cases.push(format!("wal open {} {} {}", g, hex(&sn.data), hex(&wal)));
+        out.imp.push(res.clone());
+        if res != "panic" {
+            out.cases.push(format!("wal rcalls {} 0 {} {}", g, hex(&sn.data), hex(&wal)));
+            out.imp.push(format!("{}{}", rcalls.join(" "), if res == "error" { " error" } else { "" }));
+        }
     }
     bump(out, if mapped { "backend:mapped" } else { "backend:file" });
     bump(out, &format!("calls:{}", match st.calls.len() { 0..=20 => "<=20", 21..=100 => "21-100", _ => ">100" }));
